@@ -1,5 +1,394 @@
 import QModel.Core
-/-! C03 — model (not built yet) -/
+import QGen.C03
+/-!
+# C03 — optimisation variables ↔ objects (model of the conversion functions of
+quara/objects/{state,povm,gate,mprocess}.py and of the prefix-sum layout of quara/objects/qoperations.py)
+
+List level, exactly numpy's `insert / delete / reshape / hstack / append`:
+a state is its `vec` (flat list), a POVM the list of its `vecs`, a gate the list of the rows of `hs`,
+a measurement process the list of its `hs.flatten()` (each of length `d⁴`, row-major).
+`none` = the Python function raises (reshape size mismatch, `np.delete` / `del` on an empty
+array / list, `np.hstack([])`, ZeroDivisionError for `dim = 0`).
+The integer index maps and `num_variables` are *not* written here: they are `QGen.C03.*`, regenerated
+from the Python source on every run (harness/pytolean.py).
+Scalars: any type with `Add Sub Zero One` (executed at `Rat`).  `s` is the implied first coefficient
+of a state (`1/np.sqrt(d)` as computed by numpy) and `sqrtd` the implied POVM total (`np.sqrt(d)`): parameters.
+-/
 namespace QM.C03
-def handle (_args : List String) : Option String := none
+variable {K : Type}
+
+/-! ## numpy primitives -/
+
+/-- rows of `a.reshape(k, n)` (no size check) -/
+def rows (n : Nat) : Nat → List K → List (List K)
+  | 0, _ => []
+  | k + 1, l => l.take n :: rows n k (l.drop n)
+
+/-- `a.reshape(k, n)`: ValueError unless `len a = k * n` -/
+def reshape2 (k n : Nat) (l : List K) : Option (List (List K)) :=
+  if l.length = k * n then some (rows n k l) else none
+
+def vadd [Add K] (a b : List K) : List K := List.zipWith (· + ·) a b
+def vsub [Sub K] (a b : List K) : List K := List.zipWith (· - ·) a b
+
+/-- `[c, 0, …, 0]` of length `n` (`n ≥ 1`): `np.eye(1, n)` scaled, `hstack([c, zeros(n-1)])`, `one[0] = 1` -/
+def e0 [Zero K] (c : K) (n : Nat) : List K := c :: List.replicate (n - 1) 0
+
+/-- `rs.sum(axis=0)` of a `(k, n)` array -/
+def colSum [Add K] [Zero K] (n : Nat) (rs : List (List K)) : List K :=
+  rs.foldl vadd (List.replicate n 0)
+
+def hsSize (dim : Nat) : Nat := dim ^ 2 * dim ^ 2
+
+/-! ## State (state.py:708 `convert_var_to_vec`, :775 `convert_vec_to_var`, :509/:531 stacked forms) -/
+
+/-- `np.insert(var, 0, 1/np.sqrt(dim)) if flag else var` -/
+def vecOfVar (s : K) (var : List K) (flag : Bool) : List K := if flag then s :: var else var
+
+/-- `np.delete(vec, 0) if flag else vec` (IndexError on an empty vec) -/
+def varOfVec (vec : List K) (flag : Bool) : Option (List K) :=
+  if flag then (match vec with | [] => none | _ :: t => some t) else some vec
+
+def stateStackedOfVar (s : K) (var : List K) (flag : Bool) : List K := vecOfVar s var flag
+def stateVarOfStacked (st : List K) (flag : Bool) : Option (List K) := varOfVec st flag
+
+/-! ## POVM (povm.py:1108 `convert_var_to_vecs`, :1198 `convert_vecs_to_var`, :846/:873 stacked forms) -/
+
+/-- implied last element `[√d, 0, …] − pre_vecs.sum(axis=0)` -/
+def povmLast [Add K] [Sub K] [Zero K] (dim : Nat) (sqrtd : K) (pre : List (List K)) : List K :=
+  vsub (e0 sqrtd (dim ^ 2)) (colSum (dim ^ 2) pre)
+
+def vecsOfVar [Add K] [Sub K] [Zero K] (dim : Nat) (sqrtd : K) (var : List K) (flag : Bool) :
+    Option (List (List K)) :=
+  if dim = 0 then none
+  else if flag then do
+    let mn := var.length / dim ^ 2 + 1
+    let pre ← reshape2 (mn - 1) (dim ^ 2) var
+    let last := povmLast dim sqrtd pre
+    reshape2 mn (dim ^ 2) (pre.flatten ++ last)
+  else reshape2 (var.length / dim ^ 2) (dim ^ 2) var
+
+/-- `var = copy(vecs); if flag: del var[-1]; np.hstack(var)` -/
+def varOfVecs (vecs : List (List K)) (flag : Bool) : Option (List K) :=
+  if flag then
+    (if vecs.isEmpty then none          -- del var[-1] : IndexError
+     else if vecs.dropLast.isEmpty then none   -- np.hstack([]) : ValueError
+     else some vecs.dropLast.flatten)
+  else if vecs.isEmpty then none else some vecs.flatten
+
+def povmStackedOfVar [Add K] [Sub K] [Zero K] (dim : Nat) (sqrtd : K) (var : List K) (flag : Bool) :
+    Option (List K) :=
+  if flag then (vecsOfVar dim sqrtd var true).map List.flatten else some var
+
+def povmVarOfStacked [Add K] [Sub K] [Zero K] (dim : Nat) (sqrtd : K) (st : List K) (flag : Bool) :
+    Option (List K) :=
+  if flag then do
+    let vecs ← vecsOfVar dim sqrtd st false
+    varOfVecs vecs true
+  else some st
+
+/-! ## Gate (gate.py:1057 `convert_var_to_hs`, :1135 `convert_hs_to_var`, :498/:529 stacked forms) -/
+
+def hsOfVar [Zero K] [One K] (dim : Nat) (var : List K) (flag : Bool) : Option (List (List K)) :=
+  if dim = 0 then none
+  else if flag then do
+    let r ← reshape2 (dim ^ 2 - 1) (dim ^ 2) var
+    some (e0 1 (dim ^ 2) :: r)            -- np.insert(reshaped, 0, np.eye(1, dim**2), axis=0)
+  else reshape2 (dim ^ 2) (dim ^ 2) var
+
+/-- `np.delete(hs, 0, axis=0).flatten() if flag else hs.flatten()` -/
+def varOfHs (hs : List (List K)) (flag : Bool) : Option (List K) :=
+  if flag then (match hs with | [] => none | _ :: t => some t.flatten) else some hs.flatten
+
+def gateStackedOfVar [Zero K] [One K] (dim : Nat) (var : List K) (flag : Bool) : Option (List K) :=
+  if dim = 0 then none
+  else if flag then some (e0 1 (dim ^ 2) ++ var) else some var
+
+/-- `np.delete(stacked, np.s_[: dim**2]) if flag else stacked` -/
+def gateVarOfStacked (dim : Nat) (st : List K) (flag : Bool) : List K :=
+  if flag then st.drop (dim ^ 2) else st
+
+/-! ## MProcess (mprocess.py:1041 `convert_var_to_hss`, :1009 `convert_hss_to_var`, :835/:880 stacked forms) -/
+
+/-- the loop `for outcome in range(cnt): sum_first_row += vector[hs_size*outcome : hs_size*outcome + dim**2]` -/
+def firstRowSum [Add K] [Zero K] (dim cnt : Nat) (v : List K) : List K :=
+  (List.range cnt).foldl (fun acc o => vadd acc ((v.drop (hsSize dim * o)).take (dim ^ 2)))
+    (List.replicate (dim ^ 2) 0)
+
+/-- implied first row of the last HS: `one − sum_first_row` -/
+def mpLast [Add K] [Sub K] [Zero K] [One K] (dim cnt : Nat) (v : List K) : List K :=
+  vsub (e0 1 (dim ^ 2)) (firstRowSum dim cnt v)
+
+def mpStackedOfVar [Add K] [Sub K] [Zero K] [One K] (dim : Nat) (var : List K) (flag : Bool) :
+    Option (List K) :=
+  if dim = 0 then none
+  else if flag then
+    let m := var.length / hsSize dim + 1
+    let p := hsSize dim * (m - 1)
+    some (var.take p ++ mpLast dim (m - 1) var ++ var.drop p)   -- np.insert(vector, p, first_row_of_last_hs)
+  else some var
+
+def hssOfVar [Add K] [Sub K] [Zero K] [One K] (dim : Nat) (var : List K) (flag : Bool) :
+    Option (List (List K)) :=
+  if dim = 0 then none
+  else if flag then do
+    let m := var.length / hsSize dim + 1
+    let st ← mpStackedOfVar dim var true
+    reshape2 m (hsSize dim) st
+  else reshape2 (var.length / hsSize dim) (hsSize dim) var
+
+/-- flag: every HS flattened, the last one without its first row, `np.hstack`; else `np.reshape(hss, -1)`.
+Each element of `hss` is the row-major flattening of a `d² × d²` array. -/
+def varOfHss (dim : Nat) (hss : List (List K)) (flag : Bool) : Option (List K) :=
+  if flag then
+    match hss.getLast? with
+    | none => none                         -- np.hstack([]) : ValueError
+    | some l => some (hss.dropLast.flatten ++ l.drop (dim ^ 2))
+  else some hss.flatten
+
+/-- stacked → var. Stacked vectors shorter than one HS (Python would use negative slice bounds) and
+`dim = 0` are outside the modelled domain (`none`). -/
+def mpVarOfStacked (dim : Nat) (st : List K) (flag : Bool) : Option (List K) :=
+  if flag then
+    if dim = 0 then none
+    else
+      let m := st.length / hsSize dim
+      if m = 0 then none
+      else
+        let p := hsSize dim * (m - 1)
+        some (st.take p ++ st.drop (p + dim ^ 2))           -- np.delete(st, np.s_[p : p + dim**2])
+  else some st
+
+/-! ## gradients: `gradient[index] = 1` on zeros (IndexError when out of range; the variable index is ≥ 0) -/
+
+def natOf? (i : Int) (bound : Nat) : Option Nat :=
+  if 0 ≤ i ∧ i < (bound : Int) then some i.toNat else none
+
+def oneHot [Zero K] [One K] (n pos : Nat) : List K :=
+  (List.range n).map fun j => if j = pos then 1 else 0
+
+/-- flat gradient (stacked-vector layout) of `calc_gradient_from_state` -/
+def gradState [Zero K] [One K] (dim : Nat) (i : Nat) (flag : Bool) : Option (List K) := do
+  let p ← natOf? (QGen.C03.convert_var_index_to_state_index i flag) (dim ^ 2)
+  some (oneHot (dim ^ 2) p)
+
+def gradPovm [Zero K] [One K] (dim m : Nat) (i : Nat) (flag : Bool) : Option (List K) := do
+  let ix := QGen.C03.convert_var_index_to_povm_index dim m (dim ^ 2 : Nat) i flag
+  let k ← natOf? ix.1 m
+  let j ← natOf? ix.2 (dim ^ 2)
+  some (oneHot (m * dim ^ 2) (k * dim ^ 2 + j))
+
+def gradGate [Zero K] [One K] (dim : Nat) (i : Nat) (flag : Bool) : Option (List K) := do
+  let ix := QGen.C03.convert_var_index_to_gate_index dim i flag
+  let r ← natOf? ix.1 (dim ^ 2)
+  let c ← natOf? ix.2 (dim ^ 2)
+  some (oneHot (hsSize dim) (r * dim ^ 2 + c))
+
+def gradMp [Zero K] [One K] (dim m : Nat) (i : Nat) (flag : Bool) : Option (List K) := do
+  let ix := QGen.C03.convert_var_index_to_mprocess_index dim m (dim ^ 2 : Nat) i flag
+  let k ← natOf? ix.1 m
+  let r ← natOf? ix.2.1 (dim ^ 2)
+  let c ← natOf? ix.2.2 (dim ^ 2)
+  some (oneHot (m * hsSize dim) (k * hsSize dim + r * dim ^ 2 + c))
+
+/-! ## SetQOperations (qoperations.py:293-400): prefix-sum layout, order state, gate, povm, mprocess -/
+
+structure Sizes where
+  state : List Nat
+  gate : List Nat
+  povm : List Nat
+  mprocess : List Nat
+
+def nsum (l : List Nat) : Nat := l.foldr (· + ·) 0
+
+/-- modes: 0 state, 1 gate, 2 povm, 3 mprocess -/
+def Sizes.ofMode (S : Sizes) : Nat → Option (List Nat)
+  | 0 => some S.state | 1 => some S.gate | 2 => some S.povm | 3 => some S.mprocess | _ => none
+
+/-- `_get_operation_mode_to_total_index_map` -/
+def Sizes.first (S : Sizes) : Nat → Nat
+  | 0 => 0
+  | 1 => nsum S.state
+  | 2 => nsum S.state + nsum S.gate
+  | _ => nsum S.state + nsum S.gate + nsum S.povm
+
+def Sizes.total (S : Sizes) : Nat := nsum S.state + nsum S.gate + nsum S.povm + nsum S.mprocess
+
+/-- `_get_operation_item_var_first_index`: `for i in range(index): += size(i)` — IndexError when `index > count` -/
+def itemFirst (sizes : List Nat) (k : Nat) : Option Nat :=
+  if k ≤ sizes.length then some (nsum (sizes.take k)) else none
+
+/-- `index_var_total_from_local_info` (unsupported mode: ValueError) -/
+def totalFromLocal (S : Sizes) (mode k j : Nat) : Option Nat := do
+  let sizes ← S.ofMode mode
+  let f ← itemFirst sizes k
+  some (S.first mode + f + j)
+
+/-- `_get_mode_from_index_var_total` (IndexError when out of range) -/
+def modeOfTotal (S : Sizes) (t : Nat) : Option Nat :=
+  if t < S.first 1 then some 0
+  else if S.first 1 ≤ t ∧ t < S.first 2 then some 1
+  else if S.first 2 ≤ t ∧ t < S.first 3 then some 2
+  else if S.first 3 ≤ t ∧ t < S.total then some 3
+  else none
+
+/-- the loop of `local_info_from_index_var_total`: the item `i` with `first ≤ mid < first + size i` -/
+def locate : List Nat → Nat → Nat → Option (Nat × Nat)
+  | [], _, _ => none
+  | s :: r, i, mid => if mid < s then some (i, mid) else locate r (i + 1) (mid - s)
+
+/-- `local_info_from_index_var_total` → (mode, index_operations, index_var_local) -/
+def localFromTotal (S : Sizes) (t : Nat) : Option (Nat × Nat × Nat) := do
+  let mode ← modeOfTotal S t
+  let sizes ← S.ofMode mode
+  let (k, j) ← locate sizes 0 (t - S.first mode)
+  some (mode, k, j)
+
+/-- the slices `var_total[start : start + len(to_var())]` of `set_qoperations_from_var_total`
+(ValueError when the total length is wrong) -/
+def splitBy : List Nat → List K → List (List K)
+  | [], _ => []
+  | s :: r, v => v.take s :: splitBy r (v.drop s)
+
+def setFromVarTotal (S : Sizes) (v : List K) : Option (List (List K)) :=
+  if v.length = S.total then some (splitBy (S.state ++ S.gate ++ S.povm ++ S.mprocess) v) else none
+
+/-! ## driver -/
+
+def showOL (r : Option (List Rat)) : String :=
+  match r with
+  | none => "err"
+  | some l => s!"ok {showList showRat l}"
+
+def showOLL (r : Option (List (List Rat))) : String :=
+  match r with
+  | none => "err"
+  | some ll => s!"ok {ll.length} {showList showRat ll.flatten}"
+
+def parseBool? (s : String) : Option Bool :=
+  if s = "1" then some true else if s = "0" then some false else none
+
+open QGen.C03 in
+def handle (args : List String) : Option String :=
+  match args with
+  -- generated index maps
+  | ["idx_s_v2o", f, i] => do
+      let f ← parseBool? f; let i ← parseInt? i
+      some s!"{convert_var_index_to_state_index i f}"
+  | ["idx_s_o2v", f, i] => do
+      let f ← parseBool? f; let i ← parseInt? i
+      some s!"{convert_state_index_to_var_index i f}"
+  | ["idx_p_v2o", f, dim, m, size, i] => do
+      let f ← parseBool? f; let dim ← parseInt? dim; let m ← parseInt? m; let size ← parseInt? size
+      let i ← parseInt? i
+      let r := convert_var_index_to_povm_index dim m size i f
+      some s!"{r.1},{r.2}"
+  | ["idx_p_o2v", f, dim, m, size, a, b] => do
+      let f ← parseBool? f; let dim ← parseInt? dim; let m ← parseInt? m; let size ← parseInt? size
+      let a ← parseInt? a; let b ← parseInt? b
+      some s!"{convert_povm_index_to_var_index dim m size (a, b) f}"
+  | ["idx_g_v2o", f, dim, i] => do
+      let f ← parseBool? f; let dim ← parseInt? dim; let i ← parseInt? i
+      let r := convert_var_index_to_gate_index dim i f
+      some s!"{r.1},{r.2}"
+  | ["idx_g_o2v", f, dim, a, b] => do
+      let f ← parseBool? f; let dim ← parseInt? dim; let a ← parseInt? a; let b ← parseInt? b
+      some s!"{convert_gate_index_to_var_index dim (a, b) f}"
+  | ["idx_m_v2o", f, dim, m, size, i] => do
+      let f ← parseBool? f; let dim ← parseInt? dim; let m ← parseInt? m; let size ← parseInt? size
+      let i ← parseInt? i
+      let r := convert_var_index_to_mprocess_index dim m size i f
+      some s!"{r.1},{r.2.1},{r.2.2}"
+  | ["idx_m_o2v", f, dim, m, size, a, b, c] => do
+      let f ← parseBool? f; let dim ← parseInt? dim; let m ← parseInt? m; let size ← parseInt? size
+      let a ← parseInt? a; let b ← parseInt? b; let c ← parseInt? c
+      some s!"{convert_mprocess_index_to_var_index dim (a, b, c) m size f}"
+  | ["numvars", ty, f, dim, m] => do
+      let f ← parseBool? f; let dim ← parseInt? dim; let m ← parseInt? m
+      match ty with
+      | "state" => some s!"{num_variables_qst dim f}"
+      | "povm" => some s!"{num_variables_povmt dim m f}"
+      | "gate" => some s!"{num_variables_qpt dim f}"
+      | "mprocess" => some s!"{num_variables_qmpt dim m f}"
+      | _ => none
+  -- state
+  | ["s_v2o", f, s, var] => do
+      let f ← parseBool? f; let s ← parseRat? s; let var ← parseList? parseRat? var
+      some (showOL (some (vecOfVar s var f)))
+  | ["s_o2v", f, vec] => do
+      let f ← parseBool? f; let vec ← parseList? parseRat? vec
+      some (showOL (varOfVec vec f))
+  -- povm
+  | ["p_v2o", f, dim, sq, var] => do
+      let f ← parseBool? f; let dim ← parseNat? dim; let sq ← parseRat? sq; let var ← parseList? parseRat? var
+      some (showOLL (vecsOfVar dim sq var f))
+  | ["p_o2v", f, k, n, flat] => do
+      let f ← parseBool? f; let k ← parseNat? k; let n ← parseNat? n; let flat ← parseList? parseRat? flat
+      some (showOL (varOfVecs (rows n k flat) f))
+  | ["p_v2s", f, dim, sq, var] => do
+      let f ← parseBool? f; let dim ← parseNat? dim; let sq ← parseRat? sq; let var ← parseList? parseRat? var
+      some (showOL (povmStackedOfVar dim sq var f))
+  | ["p_s2v", f, dim, sq, st] => do
+      let f ← parseBool? f; let dim ← parseNat? dim; let sq ← parseRat? sq; let st ← parseList? parseRat? st
+      some (showOL (povmVarOfStacked dim sq st f))
+  -- gate
+  | ["g_v2o", f, dim, var] => do
+      let f ← parseBool? f; let dim ← parseNat? dim; let var ← parseList? parseRat? var
+      some (showOLL (hsOfVar dim var f))
+  | ["g_o2v", f, k, n, flat] => do
+      let f ← parseBool? f; let k ← parseNat? k; let n ← parseNat? n; let flat ← parseList? parseRat? flat
+      some (showOL (varOfHs (rows n k flat) f))
+  | ["g_v2s", f, dim, var] => do
+      let f ← parseBool? f; let dim ← parseNat? dim; let var ← parseList? parseRat? var
+      some (showOL (gateStackedOfVar dim var f))
+  | ["g_s2v", f, dim, st] => do
+      let f ← parseBool? f; let dim ← parseNat? dim; let st ← parseList? parseRat? st
+      some (showOL (some (gateVarOfStacked dim st f)))
+  -- mprocess
+  | ["m_v2o", f, dim, var] => do
+      let f ← parseBool? f; let dim ← parseNat? dim; let var ← parseList? parseRat? var
+      some (showOLL (hssOfVar dim var f))
+  | ["m_o2v", f, dim, k, n, flat] => do
+      let f ← parseBool? f; let dim ← parseNat? dim; let k ← parseNat? k; let n ← parseNat? n
+      let flat ← parseList? parseRat? flat
+      some (showOL (varOfHss dim (rows n k flat) f))
+  | ["m_v2s", f, dim, var] => do
+      let f ← parseBool? f; let dim ← parseNat? dim; let var ← parseList? parseRat? var
+      some (showOL (mpStackedOfVar dim var f))
+  | ["m_s2v", f, dim, st] => do
+      let f ← parseBool? f; let dim ← parseNat? dim; let st ← parseList? parseRat? st
+      some (showOL (mpVarOfStacked dim st f))
+  -- gradients
+  | ["grad", ty, f, dim, m, i] => do
+      let f ← parseBool? f; let dim ← parseNat? dim; let m ← parseNat? m; let i ← parseNat? i
+      match ty with
+      | "state" => some (showOL (gradState dim i f))
+      | "povm" => some (showOL (gradPovm dim m i f))
+      | "gate" => some (showOL (gradGate dim i f))
+      | "mprocess" => some (showOL (gradMp dim m i f))
+      | _ => none
+  -- SetQOperations
+  | ["tot_l2t", ss, sg, sp, sm, mode, k, j] => do
+      let ss ← parseList? parseNat? ss; let sg ← parseList? parseNat? sg
+      let sp ← parseList? parseNat? sp; let sm ← parseList? parseNat? sm
+      let mode ← parseNat? mode; let k ← parseNat? k; let j ← parseNat? j
+      match totalFromLocal ⟨ss, sg, sp, sm⟩ mode k j with
+      | some t => some s!"ok {t}"
+      | none => some "err"
+  | ["tot_t2l", ss, sg, sp, sm, t] => do
+      let ss ← parseList? parseNat? ss; let sg ← parseList? parseNat? sg
+      let sp ← parseList? parseNat? sp; let sm ← parseList? parseNat? sm
+      let t ← parseNat? t
+      match localFromTotal ⟨ss, sg, sp, sm⟩ t with
+      | some (mode, k, j) => some s!"ok {mode},{k},{j}"
+      | none => some "err"
+  | ["tot_split", ss, sg, sp, sm, v] => do
+      let ss ← parseList? parseNat? ss; let sg ← parseList? parseNat? sg
+      let sp ← parseList? parseNat? sp; let sm ← parseList? parseNat? sm
+      let v ← parseList? parseRat? v
+      match setFromVarTotal ⟨ss, sg, sp, sm⟩ v with
+      | some bl => some s!"ok {"|".intercalate (bl.map (showList showRat))}"
+      | none => some "err"
+  | _ => none
+
 end QM.C03
